@@ -12,8 +12,7 @@ def showInt (i : Int) : Str :=
   | .ofNat n => showNat n
   | .negSucc n => '-' :: showNat (n + 1)
 
-def digitVal (c : Char) : Option Nat :=
-  if isAsciiDigit c then some (c.toNat - 48) else none
+def digitVal (c : Char) : Option Nat := digitValU c
 
 /-- value of a non-empty list of ASCII digits in base `b`; `none` on any other character -/
 def digitsVal (b : Nat) : Str → Nat → Option Nat
